@@ -228,6 +228,7 @@ def run(chk):
     p_config(chk)
     p_unicode(chk)
     p_splitname_assembly(chk)
+    p_maybe_capitalize(chk)
     bounded(chk)
     chk.assumptions += [
         "the contract of splitname (canonical form, idempotence, spelling invariance) is decided on the enumerated domain only (bounded stand-in); the configuration and Unicode premises are decided exactly; the assembly of the result (namespace number of the site, full = local name + ':' + partial, default / main namespace without a prefix) is proved for all titles on every bundled site table, with _strip_edges and re.sub under arbitrary-result contracts",
@@ -258,8 +259,9 @@ def p_splitname_assembly(chk):
                 continue
             ex = Explorer()
             fn = ex.function(NSH, "NsHandler.splitname")
-            for f in ("NsHandler._find_namespace", "NsHandler.maybe_capitalize"):
-                ex.inline.add(f"{NSH}:{f}")
+            ex.inline.add(f"{NSH}:NsHandler._find_namespace")
+            # maybe_capitalize by contract (verified by its own group below): a string of the same length
+            ex.contracts[f"{NSH}:NsHandler.maybe_capitalize"] = lambda I, self, tag, nsnum=None: I.fresh_str("capitalised")
             calls = {}
 
             def strip_edges_contract(I, s, calls=calls):
@@ -294,6 +296,40 @@ def p_splitname_assembly(chk):
                     leading_colon = calls.get("strips", 0) >= 2
                     I.oblige("without_a_prefix_the_default_namespace_or_main_after_a_leading_colon", nsnum == (0 if leading_colon else dns))
             chk.prove(f"nshandling.NsHandler.splitname[{lang},default {dns}]", harness, ex, targets=[fn], replay=replay_assembly)
+
+
+def p_maybe_capitalize(chk):
+    """NsHandler.maybe_capitalize for any title text, any namespace of the en site (per-namespace case setting) and both
+    site-wide settings: the result is the text itself or the text with its first character replaced by that character's
+    one-character upper case; never longer or shorter, the rest untouched; unchanged when the namespace is case-sensitive"""
+    import z3
+    from pyvc import source, models
+    from pyvc.interp import Explorer
+    from pyvc.values import PObj, SStr, ClassRef, z3_of
+    mod = source.module(NSH)
+    cls = ClassRef(mod.defs["NsHandler"], mod)
+    si = dict(sites())["en"]
+    ex = Explorer()
+    fn = ex.function(NSH, "NsHandler.maybe_capitalize")
+
+    def harness(I):
+        t = I.fresh("tag", z3.StringSort())
+        I.inputs["tag"] = t
+        cap = bool(I.decide(I.fresh("site_capitalizes", z3.BoolSort())))
+        ns = [None, 0, 10, 2300][I.choose(4, "namespace")]
+        me = PObj(cls, {"siteinfo": si, "capitalize": cap})
+        out = ex.run_function(I, fn, [me, SStr(t)] + ([ns] if ns is not None else []))
+        I.oblige("no_raise", out.returned)
+        if not out.returned:
+            return
+        r = z3_of(out.value)
+        I.oblige("same_length", z3.Length(r) == z3.Length(t))
+        I.oblige("rest_of_the_title_untouched", z3.SubString(r, 1, z3.Length(r) - 1) == z3.SubString(t, 1, z3.Length(t) - 1))
+        case = None if ns is None else si["namespaces"][str(ns)].get("case")
+        wants = cap if case is None else (case == "first-letter")
+        if not wants:
+            I.oblige("unchanged_where_the_site_or_namespace_is_case_sensitive", r == t)
+    chk.prove("nshandling.NsHandler.maybe_capitalize", harness, ex, targets=[fn], replay=replay_assembly)
 
 
 def replay_assembly(model, obligation):
